@@ -667,3 +667,340 @@ Definition empty_handed (th : thread) : Prop :=
 
 Lemma empty_handed_held th : empty_handed th -> held th = [].
 Proof. destruct th; cbn; try contradiction; auto. Qed.
+
+(* ------------------------------------------------------------------ *)
+(** * The model's traces are accepted by the monitor *)
+
+Definition loc_ok (st : state) (t : tok) (l : loc) : Prop :=
+  match l with
+  | InPool => In t (pool st)
+  | Held g => exists th, nth_error (ths st) g = Some th /\ In t (held th)
+  | InQueue q => In t (nth q (qs st) [])
+  | Lost => In t (leaked st)
+  end.
+
+Definition sim (n : nat) (st : state) (m : list loc) : Prop :=
+  length m = n /\ forall t l, nth_error m t = Some l -> loc_ok st t l.
+
+Lemma count_pos (l : list nat) t : In t l -> 1 <= count_occ Nat.eq_dec l t.
+Proof. intros H. apply (count_occ_In Nat.eq_dec) in H. lia. Qed.
+
+Lemma count_concat_one (l : list (list nat)) i a t :
+  nth_error l i = Some a -> In t a -> 1 <= count_occ Nat.eq_dec (concat l) t.
+Proof.
+  intros H Hin. apply count_pos. apply in_concat. exists a; split; auto.
+  eapply nth_error_In; eauto.
+Qed.
+
+Lemma count_concat_two (l : list (list nat)) i j a b t :
+  i <> j -> nth_error l i = Some a -> nth_error l j = Some b -> In t a -> In t b ->
+  2 <= count_occ Nat.eq_dec (concat l) t.
+Proof.
+  revert i j; induction l as [|h l IH]; intros [|i] [|j] Hne Hi Hj Ha Hb; cbn in *;
+    try discriminate; try lia; rewrite count_occ_app.
+  - inversion Hi; subst. pose proof (count_pos _ _ Ha).
+    pose proof (count_concat_one _ _ _ _ Hj Hb). lia.
+  - inversion Hj; subst. pose proof (count_pos _ _ Hb).
+    pose proof (count_concat_one _ _ _ _ Hi Ha). lia.
+  - assert (i <> j) by lia. pose proof (IH _ _ H Hi Hj Ha Hb). lia.
+Qed.
+
+Lemma nth_in_error {A} q (l : list (list A)) t :
+  In t (nth q l []) -> exists a, nth_error l q = Some a /\ In t a /\ nth q l [] = a.
+Proof.
+  revert q; induction l as [|h l IH]; intros [|q] H; cbn in *; try contradiction; eauto.
+Qed.
+
+Lemma loc_unique n st t l1 l2 :
+  inv n st -> loc_ok st t l1 -> loc_ok st t l2 -> l1 = l2.
+Proof.
+  intros Hi H1 H2.
+  assert (Hc : forall l, loc_ok st t l ->
+               1 <= count_occ Nat.eq_dec
+                      match l with InPool => pool st | Held _ => concat (map held (ths st))
+                                 | InQueue _ => concat (qs st) | Lost => leaked st end t).
+  { intros [|g|q|] H; cbn in H.
+    - now apply count_pos.
+    - destruct H as (th & Hth & Hin). eapply count_concat_one; [|exact Hin].
+      apply map_nth_error; exact Hth.
+    - destruct (nth_in_error _ _ _ H) as (a & Ha & Hin & _). eapply count_concat_one; eauto.
+    - now apply count_pos. }
+  pose proof (Hc _ H1) as C1. pose proof (Hc _ H2) as C2.
+  assert (Hin : In t (all_toks st)).
+  { unfold all_toks, owned. destruct l1; cbn in H1.
+    - apply in_or_app; right; apply in_or_app; left; auto.
+    - destruct H1 as (th & Hth & Hin). apply in_or_app; right; apply in_or_app; right.
+      apply in_or_app; right. apply in_concat. exists (held th); split; auto.
+      apply in_map. eapply nth_error_In; eauto.
+    - destruct (nth_in_error _ _ _ H1) as (a & Ha & Hin & _).
+      apply in_or_app; right; apply in_or_app; right; apply in_or_app; left.
+      apply in_concat. exists a; split; auto. eapply nth_error_In; eauto.
+    - apply in_or_app; left; auto. }
+  pose proof (inv_once _ _ _ Hi (inv_range _ _ _ Hi Hin)) as H1c.
+  unfold all_toks, owned in H1c. rewrite !count_occ_app in H1c.
+  unfold tok, tid, qid in *.
+  destruct l1 as [|g1|q1|], l2 as [|g2|q2|]; auto; try lia.
+  - (* two goroutines *)
+    destruct (Nat.eq_dec g1 g2) as [->|Hne]; auto. exfalso.
+    cbn in H1, H2. destruct H1 as (th1 & Ht1 & Hi1), H2 as (th2 & Ht2 & Hi2).
+    pose proof (count_concat_two (map held (ths st)) g1 g2 _ _ t Hne
+                  (map_nth_error held _ _ Ht1) (map_nth_error held _ _ Ht2) Hi1 Hi2).
+    unfold tok, tid, qid in *. lia.
+  - (* two queues *)
+    destruct (Nat.eq_dec q1 q2) as [->|Hne]; auto. exfalso.
+    cbn in H1, H2.
+    destruct (nth_in_error _ _ _ H1) as (a1 & Ha1 & Hi1 & _).
+    destruct (nth_in_error _ _ _ H2) as (a2 & Ha2 & Hi2 & _).
+    pose proof (count_concat_two (qs st) q1 q2 _ _ t Hne Ha1 Ha2 Hi1 Hi2).
+    unfold tok, tid, qid in *. lia.
+Qed.
+
+Lemma loc_ok_in st t l : loc_ok st t l -> In t (all_toks st).
+Proof.
+  unfold all_toks, owned. destruct l; cbn; intros H.
+  - apply in_or_app; right; apply in_or_app; left; auto.
+  - destruct H as (th & Hth & Hin). apply in_or_app; right; apply in_or_app; right.
+    apply in_or_app; right. apply in_concat. exists (held th); split; auto.
+    apply in_map. eapply nth_error_In; eauto.
+  - destruct (nth_in_error _ _ _ H) as (a & Ha & Hin & _).
+    apply in_or_app; right; apply in_or_app; right; apply in_or_app; left.
+    apply in_concat. exists a; split; auto. eapply nth_error_In; eauto.
+  - apply in_or_app; left; auto.
+Qed.
+
+Lemma sim_lookup n st m t l :
+  inv n st -> sim n st m -> loc_ok st t l -> nth_error m t = Some l.
+Proof.
+  intros Hi [Hl Hs] H.
+  assert (Ht : t < length m).
+  { rewrite Hl. eapply inv_range; eauto. eapply loc_ok_in; eauto. }
+  destruct (nth_error m t) as [l0|] eqn:E; [|apply nth_error_None in E; lia].
+  f_equal. eapply loc_unique; eauto.
+Qed.
+
+(** A step that only moves buffer [t]. *)
+Definition keeps (t : tok) (A B : list tok) : Prop := forall t', t' <> t -> In t' A -> In t' B.
+
+Lemma keeps_refl t A : keeps t A A.
+Proof. intros t' _ H; auto. Qed.
+
+Lemma frame st st' t :
+  keeps t (pool st) (pool st') ->
+  keeps t (leaked st) (leaked st') ->
+  (forall q, keeps t (nth q (qs st) []) (nth q (qs st') [])) ->
+  (forall g th, nth_error (ths st) g = Some th ->
+                exists th', nth_error (ths st') g = Some th' /\ keeps t (held th) (held th')) ->
+  forall t' l, t' <> t -> loc_ok st t' l -> loc_ok st' t' l.
+Proof.
+  intros Hp Hl Hq Hth t' l Hne H. destruct l; cbn in *.
+  - apply Hp; auto.
+  - destruct H as (th & Ht & Hin). destruct (Hth _ _ Ht) as (th' & Ht' & Hk).
+    exists th'; split; auto.
+  - eapply Hq; eauto.
+  - apply Hl; auto.
+Qed.
+
+Lemma threads_frame (ths0 : list thread) g th th' t :
+  nth_error ths0 g = Some th -> keeps t (held th) (held th') ->
+  forall g' x, nth_error ths0 g' = Some x ->
+               exists x', nth_error (upd g th' ths0) g' = Some x' /\ keeps t (held x) (held x').
+Proof.
+  intros Hg Hk g' x Hx. destruct (Nat.eq_dec g g') as [<-|Hne].
+  - exists th'. split.
+    + apply nth_error_upd_eq. apply nth_error_Some. congruence.
+    + rewrite Hg in Hx. inversion Hx; subst. auto.
+  - exists x. split; [rewrite nth_error_upd_neq; auto|apply keeps_refl].
+Qed.
+
+Lemma queues_frame (qs0 : list (list tok)) q newq t :
+  keeps t (nth q qs0 []) newq ->
+  forall q', keeps t (nth q' qs0 []) (nth q' (upd q newq qs0) []).
+Proof.
+  intros Hk q'. destruct (Nat.eq_dec q q') as [<-|Hne].
+  - destruct (Nat.lt_ge_cases q (length qs0)) as [Hlt|Hge].
+    + rewrite nth_upd_eq by auto. auto.
+    + rewrite (nth_overflow qs0) by auto. intros t' _ [].
+  - rewrite nth_upd_neq by auto. apply keeps_refl.
+Qed.
+
+Lemma perm_keeps_add t A B : Permutation B (t :: A) -> keeps t A B.
+Proof. intros P t' _ H. eapply Permutation_in; [symmetry; exact P|]. right; auto. Qed.
+
+Lemma perm_keeps_del t A B : Permutation (t :: B) A -> keeps t A B.
+Proof.
+  intros P t' Hne H. eapply Permutation_in in H; [|symmetry; exact P].
+  destruct H; [congruence|auto].
+Qed.
+
+Lemma perm_keeps t A B : Permutation B A -> keeps t A B.
+Proof. intros P t' _ H. eapply Permutation_in; [symmetry; exact P|auto]. Qed.
+
+Lemma mrun_use m g l :
+  (forall t, In t l -> nth_error m t = Some (Held g)) ->
+  mrun m (map (fun t => EUse t g) l) = Some m.
+Proof.
+  induction l as [|t l IH]; intros H; cbn; auto.
+  rewrite (H t) by (left; auto). rewrite Nat.eqb_refl. apply IH. intros; apply H; right; auto.
+Qed.
+
+(** Installing the new location of the moved buffer. *)
+Lemma sim_move n st st' m t newl :
+  sim n st m -> t < n ->
+  loc_ok st' t newl ->
+  (forall t' l, t' <> t -> loc_ok st t' l -> loc_ok st' t' l) ->
+  sim n st' (upd t newl m).
+Proof.
+  intros [Hl Hs] Ht Hnew Hfr. split; [rewrite upd_length; auto|].
+  intros t' l H. destruct (Nat.eq_dec t t') as [<-|Hne].
+  - rewrite nth_error_upd_eq in H by lia. inversion H; subst; auto.
+  - rewrite nth_error_upd_neq in H by auto. apply Hfr; auto.
+Qed.
+
+Lemma gstep_sim sf n st g c st' es m :
+  inv n st -> sim n st m -> gstep sf st g c = Some (st', es) ->
+  exists m', mrun m es = Some m' /\ sim n st' m'.
+Proof.
+  intros Hi Hs H. pose proof Hi as [Hp Hw]. unfold gstep in H.
+  destruct (nth_error (ths st) g) as [th|] eqn:Hth; [|discriminate].
+  destruct (tstep sf th c) as [[a k]|] eqn:Ht; [|discriminate].
+  destruct (tstep_disciplined _ _ _ _ _ (Forall_nth_error _ _ _ _ Hw Hth) Ht) as [Hd _].
+  assert (Hheld : forall t, In t (held th) -> nth_error m t = Some (Held g)).
+  { intros t Hin. eapply sim_lookup; eauto. cbn. eauto. }
+  assert (Hrange : forall t l, loc_ok st t l -> t < n).
+  { intros t l Hl. eapply inv_range; eauto. eapply loc_ok_in; eauto. }
+  destruct a; cbn [disciplined] in Hd.
+  - (* ANone *)
+    inversion H; subst; clear H. exists m. split; [reflexivity|].
+    destruct Hs as [Hl Hs]. split; auto. intros t l Hm. specialize (Hs _ _ Hm).
+    destruct l; cbn in *; auto.
+    destruct Hs as (x & Hx & Hin).
+    destruct (threads_frame (ths st) g th (k 0) n Hth (perm_keeps _ _ _ Hd) _ _ Hx)
+      as (x' & Hx' & Hk).
+    exists x'; split; auto. destruct (Nat.eq_dec g g0) as [<-|Hne].
+    + rewrite nth_error_upd_eq in Hx' by (apply nth_error_Some; congruence).
+      inversion Hx'; subst. rewrite Hth in Hx. inversion Hx; subst.
+      eapply Permutation_in; [symmetry; exact Hd|auto].
+    + rewrite nth_error_upd_neq in Hx' by auto. congruence.
+  - (* AUse *)
+    destruct Hd as [Hd Hincl]. inversion H; subst; clear H. exists m. split.
+    + apply mrun_use. intros t Hin. apply Hheld. apply Hincl; auto.
+    + destruct Hs as [Hl Hs]. split; auto. intros t l' Hm. specialize (Hs _ _ Hm).
+      destruct l'; cbn in *; auto.
+      destruct Hs as (x & Hx & Hin). destruct (Nat.eq_dec g g0) as [<-|Hne].
+      * exists (k 0). split; [apply nth_error_upd_eq; apply nth_error_Some; congruence|].
+        rewrite Hth in Hx. inversion Hx; subst.
+        eapply Permutation_in; [symmetry; exact Hd|auto].
+      * exists x. split; [rewrite nth_error_upd_neq; auto|auto].
+  - (* AGet *)
+    destruct (pool st) as [|t p'] eqn:Epool; [discriminate|].
+    inversion H; subst; clear H. specialize (Hd t).
+    assert (Hin : loc_ok st t InPool) by (cbn; rewrite Epool; left; auto).
+    exists (upd t (Held g) m). split.
+    + cbn. rewrite (sim_lookup _ _ _ _ _ Hi Hs Hin). reflexivity.
+    + apply (sim_move n st); eauto.
+      * cbn. exists (k t). split; [apply nth_error_upd_eq; apply nth_error_Some; congruence|].
+        eapply Permutation_in; [symmetry; exact Hd|left; auto].
+      * apply frame; cbn [pool qs ths leaked].
+        -- rewrite Epool. intros t' Hne [E|E]; [congruence|auto].
+        -- apply keeps_refl.
+        -- intros q. apply keeps_refl.
+        -- apply (threads_frame _ _ _ _ _ Hth). apply perm_keeps_add; auto.
+  - (* ADeq *)
+    destruct (nth q (qs st) []) as [|t l'] eqn:Eq; [discriminate|].
+    inversion H; subst; clear H. specialize (Hd t).
+    assert (Hin : loc_ok st t (InQueue q)) by (cbn; rewrite Eq; left; auto).
+    exists (upd t (Held g) m). split.
+    + cbn. rewrite (sim_lookup _ _ _ _ _ Hi Hs Hin). rewrite Nat.eqb_refl. reflexivity.
+    + apply (sim_move n st); eauto.
+      * cbn. exists (k t). split; [apply nth_error_upd_eq; apply nth_error_Some; congruence|].
+        eapply Permutation_in; [symmetry; exact Hd|left; auto].
+      * apply frame; cbn [pool qs ths leaked].
+        -- apply keeps_refl.
+        -- apply keeps_refl.
+        -- apply queues_frame. rewrite Eq. intros t' Hne [E|E]; [congruence|auto].
+        -- apply (threads_frame _ _ _ _ _ Hth). apply perm_keeps_add; auto.
+  - (* APut *)
+    inversion H; subst; clear H.
+    assert (Hin : In t (held th)) by (eapply Permutation_in; [exact Hd|left; auto]).
+    exists (upd t InPool m). split.
+    + cbn. rewrite (Hheld _ Hin). rewrite Nat.eqb_refl. reflexivity.
+    + apply (sim_move n st); auto.
+      * apply (Hrange t (Held g)). cbn; eauto.
+      * cbn. apply in_or_app; right; left; auto.
+      * apply frame; cbn [pool qs ths leaked].
+        -- intros t' _ Hp'. apply in_or_app; auto.
+        -- apply keeps_refl.
+        -- intros q. apply keeps_refl.
+        -- apply (threads_frame _ _ _ _ _ Hth). apply perm_keeps_del; auto.
+  - (* AEnq *)
+    destruct (q <? length (qs st)) eqn:Eq; [|discriminate]. apply Nat.ltb_lt in Eq.
+    inversion H; subst; clear H.
+    assert (Hin : In t (held th)) by (eapply Permutation_in; [exact Hd|left; auto]).
+    exists (upd t (InQueue q) m). split.
+    + cbn. rewrite (Hheld _ Hin). rewrite Nat.eqb_refl. reflexivity.
+    + apply (sim_move n st); auto.
+      * apply (Hrange t (Held g)). cbn; eauto.
+      * cbn. rewrite nth_upd_eq by auto. apply in_or_app; right; left; auto.
+      * apply frame; cbn [pool qs ths leaked].
+        -- apply keeps_refl.
+        -- apply keeps_refl.
+        -- apply queues_frame. intros t' _ Hq'. apply in_or_app; auto.
+        -- apply (threads_frame _ _ _ _ _ Hth). apply perm_keeps_del; auto.
+  - (* ALeak *)
+    inversion H; subst; clear H.
+    assert (Hin : In t (held th)) by (eapply Permutation_in; [exact Hd|left; auto]).
+    exists (upd t Lost m). split.
+    + cbn. rewrite (Hheld _ Hin). rewrite Nat.eqb_refl. reflexivity.
+    + apply (sim_move n st); auto.
+      * apply (Hrange t (Held g)). cbn; eauto.
+      * cbn. left; auto.
+      * apply frame; cbn [pool qs ths leaked].
+        -- apply keeps_refl.
+        -- intros t' _ Hl'. right; auto.
+        -- intros q. apply keeps_refl.
+        -- apply (threads_frame _ _ _ _ _ Hth). apply perm_keeps_del; auto.
+Qed.
+
+Lemma grun_sim sf n sched st st' es m :
+  inv n st -> sim n st m -> grun sf st sched = Some (st', es) ->
+  exists m', mrun m es = Some m' /\ sim n st' m'.
+Proof.
+  revert st es m; induction sched as [|[g c] rest IH]; intros st es m Hi Hs H; cbn in H.
+  - inversion H; subst. exists m; split; auto.
+  - destruct (gstep sf st g c) as [[st1 es1]|] eqn:E1; [|discriminate].
+    destruct (grun sf st1 rest) as [[st2 es2]|] eqn:E2; [|discriminate].
+    inversion H; subst; clear H.
+    destruct (gstep_sim _ _ _ _ _ _ _ _ Hi Hs E1) as (m1 & R1 & S1).
+    destruct (IH _ _ _ (gstep_inv _ _ _ _ _ _ _ Hi E1) S1 E2) as (m2 & R2 & S2).
+    exists m2. split; auto. rewrite mrun_app, R1. auto.
+Qed.
+
+Lemma init_sim n nq threads : sim n (init_state n nq threads) (minit n).
+Proof.
+  unfold minit. split; [apply repeat_length|].
+  intros t l H.
+  assert (Ht : t < n).
+  { rewrite <- (repeat_length InPool n). apply nth_error_Some. congruence. }
+  rewrite nth_error_repeat in H by auto. inversion H; subst. cbn. apply in_seq. lia.
+Qed.
+
+(** Every trace of the model is accepted by the monitor. *)
+Lemma model_accepted sf n nq threads sched st es :
+  Forall initial threads ->
+  grun sf (init_state n nq threads) sched = Some (st, es) ->
+  accepts n es = true.
+Proof.
+  intros Hin H.
+  destruct (grun_sim _ _ _ _ _ _ _ (init_inv n nq threads Hin) (init_sim n nq threads) H)
+    as (m' & R & _).
+  unfold accepts. now rewrite R.
+Qed.
+
+Lemma lrun_no_lost th acq rel lost th' : lrun false th acq rel lost th' -> lost = [].
+Proof.
+  induction 1 as [|th c a k t acq rel lost th' Hs _ IH]; auto.
+  subst. destruct a; cbn; auto. exfalso. eapply tstep_no_leak; eauto.
+Qed.
+
+Lemma NoDup_app_tail {A} (a b : list A) : NoDup (a ++ b) -> NoDup b.
+Proof. induction a; cbn; auto. intros H. inversion H; auto. Qed.
